@@ -3,7 +3,7 @@
 import json, subprocess
 
 HOOK_COMMITS = ["ac08067"]
-FIX_COMMITS = ["ee1d815", "296be57", "098316b", "7098e6b", "bcffdd6", "589a9d1", "787a52b", "01dcc1c", "13be19f", "eb8a8e1", "143bda1", "08fee98", "76d9565", "2fac958", "f13a010", "e0e2fbb", "6b377b1", "88e0012", "6cc0461", "a440b7e", "f1835f9", "c7e0c99", "a2047f0", "b109eaa", "431ab8f", "3904c34", "c4c01fd", "c990c08", "9160c09", "a7ccd80", "9f730ea"]
+FIX_COMMITS = ["ee1d815", "296be57", "098316b", "7098e6b", "bcffdd6", "589a9d1", "787a52b", "01dcc1c", "13be19f", "eb8a8e1", "143bda1", "08fee98", "76d9565", "2fac958", "f13a010", "e0e2fbb", "6b377b1", "88e0012", "6cc0461", "a440b7e", "f1835f9", "c7e0c99", "a2047f0", "b109eaa", "431ab8f", "3904c34", "c4c01fd", "c990c08", "9160c09", "a7ccd80", "9f730ea", "32713bd"]
 
 # id -> (technique, level text, level note, design ref)
 CHECKS = {
